@@ -59,7 +59,10 @@ func processPoll(ctx sdk.Context, k keeper.Keeper, pollID uint64) {
 
 	isQuorum, err := types.IsQuorum(quorum, uint64(numVotes), uint64(totalVoters))
 	if err != nil {
-		panic(fmt.Sprintf("Invalid quorum on proposal: pollID=%d, err=%+v", pollID, err))
+		// not halt the chain: voters can lose their role after voting (more votes than voters);
+		// an inconsistent tally counts as quorum not reached
+		ctx.Logger().Error(fmt.Sprintf("Invalid quorum on poll: pollID=%d, err=%+v", pollID, err))
+		isQuorum = false
 	}
 
 	if isQuorum {
@@ -123,7 +126,10 @@ func processProposal(ctx sdk.Context, k keeper.Keeper, proposalID uint64) {
 
 	isQuorum, err := types.IsQuorum(quorum, uint64(numVotes), uint64(totalVoters))
 	if err != nil {
-		panic(fmt.Sprintf("Invalid quorum on proposal: proposalID=%d, proposalType=%s, err=%+v", proposalID, proposal.GetContent().ProposalType(), err))
+		// not halt the chain: voters can lose their permission after voting (more votes than voters) and a
+		// spending pool can carry a vote quorum above 1; an inconsistent tally counts as quorum not reached
+		ctx.Logger().Error(fmt.Sprintf("Invalid quorum on proposal: proposalID=%d, proposalType=%s, err=%+v", proposalID, proposal.GetContent().ProposalType(), err))
+		isQuorum = false
 	}
 
 	if isQuorum {
